@@ -524,10 +524,37 @@ SPEC = [
 ]
 
 
+def dm_prechecks(repo=REPO):
+    """dtw.distance_matrix: the statements under `if block is not None:` before any distance is computed - one `raise`
+    (triu=False needs compact) and ONE early `return []`; its condition is regenerated (anything else fails closed)"""
+    tree = ast.parse(open(os.path.join(repo, "src/dtaidistance/dtw.py")).read())
+    fn = find_function(tree, "distance_matrix")
+    top = [st for st in fn.body if isinstance(st, ast.If) and ast.unparse(st.test) == "block is not None"]
+    if len(top) != 1 or top[0].orelse:
+        raise TranslateError("distance_matrix: `if block is not None:` found %d times at the top level" % len(top))
+    body = top[0].body
+    if len(body) != 2 or not all(isinstance(st, ast.If) and not st.orelse for st in body):
+        raise TranslateError("distance_matrix: the block pre-checks are not two plain if statements")
+    if ast.unparse(body[0].test) != "len(block) > 2 and block[2] is False and (compact is False)" or \
+            len(body[0].body) != 1 or not isinstance(body[0].body[0], ast.Raise):
+        raise TranslateError("distance_matrix: first block pre-check is %s" % ast.unparse(body[0].test))
+    if len(body[1].body) != 1 or not isinstance(body[1].body[0], ast.Return) or ast.unparse(body[1].body[0]) != "return []":
+        raise TranslateError("distance_matrix: second block pre-check does not `return []`")
+    # no other `return` before the distances are computed
+    rets = [st for st in ast.walk(fn) if isinstance(st, ast.Return)]
+    early = [r for r in rets if ast.unparse(r) not in ("return dists", "return dists_matrix")]
+    if [ast.unparse(r) for r in early] != ["return []"]:
+        raise TranslateError("distance_matrix: return statements %s" % [ast.unparse(r) for r in rets])
+    cond = Tr(dict(BLK)).b(body[1].test)
+    return ("\n(* dtw.distance_matrix: the only early `return []` (under `if block is not None:`) *)\n"
+            "Definition py_dm_early_empty (rb : Z) (re : Z) (cb : Z) (ce : Z) : bool := %s.\n" % cond)
+
+
 def main():
     outdir = sys.argv[1] if len(sys.argv) > 1 else "/verif/coq/gen"
     try:
         outs = translate(SPEC)
+        outs["Gen_matrix.v"] = outs["Gen_matrix.v"] + dm_prechecks()
     except TranslateError as exc:
         print("TRANSLATE-ERROR: %s" % exc)
         sys.exit(2)
